@@ -184,6 +184,10 @@ pub fn check_tree(xot: &Xot, m: &Forest, h: &[Option<Node>], root: usize, count:
         expect("all_traverse", n, &t.edges(xot.all_traverse(xn), "all_traverse", n)?, &want_at, m)?;
         let want_rat: Vec<E> = want_at.iter().rev().copied().collect();
         expect("reverse_all_traverse", n, &t.edges(xot.reverse_all_traverse(xn), "reverse_all_traverse", n)?, &want_rat, m)?;
+        // derived predicates
+        let parent_is_doc = m.nodes[n].parent.map(|p| m.is_document(p)).unwrap_or(false);
+        expect("has_document_parent", n, &xot.has_document_parent(xn), &parent_is_doc, m)?;
+        expect("is_document_element", n, &xot.is_document_element(xn), &(parent_is_doc && m.is_element(n)), m)?;
         // child_index
         if let Some(p) = m.nodes[n].parent {
             let want_ci = if ordinary { m.ordinary(p).iter().position(|k| *k == n) } else { None };
